@@ -20,10 +20,11 @@ for d in sorted(glob.glob(os.path.join(V, 'seeded', '*'))):
     lines.append('| %s | %s | %s | %s | %s |' % (os.path.basename(d), m['change'].replace('|', '/'),
                  m['needs_to_manifest'].replace('|', '/'), how, 'yes' if m['check_strengthened'] else 'no'))
 lines.append('')
-lines.append('Of the 40 changes, %d were caught by the checks as first written, %d needed a strengthened check; '
+lines.append('Of the %d changes, %d were caught by the checks as first written, %d needed a strengthened check; '
              '%d are caught by a concrete probe of the real code rather than by the solver (the branch is '
              'guarded by a float dtype / float formatting, needs request sizes or matrix sizes beyond the symbolic '
              'bound, goes through matplotlib, or lives in code declared outside the solver-decided claim).\n' % (
+    len(glob.glob(os.path.join(V, 'seeded', '*'))),
     sum(1 for d in glob.glob(os.path.join(V, 'seeded', '*')) if not json.load(open(d + '/meta.json'))['check_strengthened']),
     sum(1 for d in glob.glob(os.path.join(V, 'seeded', '*')) if json.load(open(d + '/meta.json'))['check_strengthened']),
     sum(1 for d in glob.glob(os.path.join(V, 'seeded', '*')) if 'concrete probe' in json.load(open(d + '/meta.json'))['result'].split('Now caught')[-1] or 'via the concrete probe' in json.load(open(d + '/meta.json'))['result'])))
